@@ -2,8 +2,8 @@ package main
 
 import (
 	"fmt"
-	"os"
 	"math/big"
+	"os"
 	"sort"
 	"strings"
 
@@ -25,6 +25,7 @@ type monC12 struct {
 	deficit         map[string]*big.Rat
 	ent             map[PosKey]sdk.Coins
 	precisionLoss   bool
+	dead            bool
 	maxTokens       *big.Rat
 	inflatedBySlash bool
 }
@@ -90,6 +91,9 @@ func measureAccruedAt(r *Runner, ctx sdk.Context, s *Snap) (pool sdk.Coins, ent 
 			defer func() {
 				if rec := recover(); rec != nil {
 					failed++
+					if os.Getenv("VERIF_C12_DEBUG") != "" {
+						fmt.Fprintf(os.Stderr, "      measure %v panics: %v\n", pk, rec)
+					}
 				}
 			}()
 			asset, found := k.GetAssetByDenom(ctx, pk.Denom)
@@ -133,6 +137,17 @@ func measureAccruedAt(r *Runner, ctx sdk.Context, s *Snap) (pool sdk.Coins, ent 
 }
 
 func (m *monC12) OnStep(r *Runner, st *Step) {
+	if m.dead {
+		return
+	}
+	if hookFailed(st) {
+		// open finding C08-hook-fails-on-reward-pool-shortfall: x/staking only logs the error, so whatever the hook
+		// did before it failed stays - including the first denominations of the multi-denomination payout that
+		// failed (debited from the pool, credited to nobody). Pool and entitlements no longer mean anything.
+		m.dead = true
+		r.Probe("run_abandoned_after_hook_error")
+		return
+	}
 	m.step++
 	post := st.Post
 	// a validator holding less than 10^-9 of an asset's shares: the module's 18-digit quotient vs/S keeps fewer
@@ -164,6 +179,36 @@ func (m *monC12) OnStep(r *Runner, st *Step) {
 	pool, ent, failed := measureAccrued(r, post)
 	if os.Getenv("VERIF_C12_DEBUG") != "" {
 		fmt.Fprintf(os.Stderr, "C12DEBUG %s pool=%s\n", st.Name, pool)
+		if st.Pre != nil {
+			addrs := map[string]bool{}
+			for a := range st.Pre.Bal {
+				addrs[a] = true
+			}
+			for a := range post.Bal {
+				addrs[a] = true
+			}
+			for _, a := range sortedKeys(addrs) {
+				if !st.Pre.Bal[a].Equal(post.Bal[a]) {
+					fmt.Fprintf(os.Stderr, "   bal %s: %s -> %s\n", short(a), st.Pre.Bal[a], post.Bal[a])
+				}
+			}
+		}
+		for _, l := range st.Logs {
+			fmt.Fprintf(os.Stderr, "   log %s\n", clip(fmt.Sprint(l), 300))
+		}
+		for _, e := range st.Events {
+			if e.Type == "coin_received" || e.Type == "coin_spent" {
+				fmt.Fprintf(os.Stderr, "   event %s %s %s\n", e.Type, short(attr(e, "receiver")+attr(e, "spender")), attr(e, "amount"))
+			}
+		}
+		if st.Pre != nil && !st.Pre.Supply.Equal(post.Supply) {
+			fmt.Fprintf(os.Stderr, "   supply %s -> %s\n", st.Pre.Supply, post.Supply)
+		}
+		for _, f := range flowsOf(st.Events) {
+			if f.Kind == "transfer" && (f.From == r.W.RewardsAddr.String() || f.To == r.W.RewardsAddr.String()) {
+				fmt.Fprintf(os.Stderr, "   flow %s -> %s %s\n", short(f.From), short(f.To), f.Coins)
+			}
+		}
 		for _, pk := range post.DelOrder {
 			fmt.Fprintf(os.Stderr, "   %s@%s/%s value=%s shares=%s ent=%s\n", short(pk.Del), short(pk.Val), pk.Denom, rstr(post.PosValue(pk)), post.Dels[pk].Shares, ent[pk])
 		}
@@ -184,16 +229,26 @@ func (m *monC12) OnStep(r *Runner, st *Step) {
 	for _, pk := range post.DelOrder {
 		v := post.PosValue(pk)
 		// relative error of the module's 18-digit quotient validatorShares/totalShares for this position's validator
+		// (the state before the step counts too: the rounding of the old quotient is what the new one is compared with)
 		relErr := new(big.Rat)
-		if a, ok := post.Assets[pk.Denom]; ok && a.TotalValidatorShares.IsPositive() {
-			if vs := ratDec(decCoinsAmount(post.ValInfos[pk.Val].ValidatorShares, pk.Denom)); vs.Sign() > 0 {
-				relErr = rmul(rquo(ratDec(a.TotalValidatorShares), vs), big.NewRat(4, 1_000_000_000_000_000_000))
+		for _, sn := range []*Snap{st.Pre, post} {
+			if sn == nil {
+				continue
 			}
-		}
-		// ... and of delegationShares/validator's delegator shares
-		if sh := ratDec(post.Dels[pk].Shares); sh.Sign() > 0 {
-			D := ratDec(decCoinsAmount(post.ValInfos[pk.Val].TotalDelegatorShares, pk.Denom))
-			relErr = radd(relErr, rmul(rquo(D, sh), big.NewRat(4, 1_000_000_000_000_000_000)))
+			re := new(big.Rat)
+			if a, ok := sn.Assets[pk.Denom]; ok && a.TotalValidatorShares.IsPositive() {
+				if vs := ratDec(decCoinsAmount(sn.ValInfos[pk.Val].ValidatorShares, pk.Denom)); vs.Sign() > 0 {
+					re = rmul(rquo(ratDec(a.TotalValidatorShares), vs), big.NewRat(4, 1_000_000_000_000_000_000))
+				}
+			}
+			// ... and of delegationShares/validator's delegator shares
+			if dl, ok := sn.Dels[pk]; ok {
+				if sh := ratDec(dl.Shares); sh.Sign() > 0 {
+					D := ratDec(decCoinsAmount(sn.ValInfos[pk.Val].TotalDelegatorShares, pk.Denom))
+					re = radd(re, rmul(rquo(D, sh), big.NewRat(4, 1_000_000_000_000_000_000)))
+				}
+			}
+			relErr = maxRat(relErr, re)
 		}
 		// the floor(value + 0.01) effect cuts both ways (a position worth 3.9 is paid for 3 tokens): when the share
 		// of a reward that goes through such a position shrinks in a step, the aggregate entitlement grows by up
@@ -255,20 +310,105 @@ func (m *monC12) OnStep(r *Runner, st *Step) {
 			continue
 		}
 		cls := "entitlement-inflated:" + st.Kind + ":" + stepOpKind(st)
+		// The mechanism behind the open findings: an entitlement is (index difference) x (the position's current
+		// token count floor(value + 0.01)), so it scales with the token count whenever that moves without a claim.
+		// revalBound is the part of the entitlements measured now that such a move explains, over positions whose
+		// shares did not change in this step (a position that was topped up or cut has been settled by the module).
+		revalBound := new(big.Rat)
+		for _, pk := range post.DelOrder {
+			pd, ok := st.Pre.Dels[pk]
+			if !ok || !pd.Shares.Equal(post.Dels[pk].Shares) {
+				continue
+			}
+			amt := ent[pk].AmountOf(d)
+			if !amt.IsPositive() {
+				continue
+			}
+			vpre, vpost := st.Pre.PosValue(pk), post.PosValue(pk)
+			eps := radd(rmul(radd(vpre, vpost), big.NewRat(1, 1_000_000_000_000)), big.NewRat(1, 1_000_000))
+			tlo := new(big.Rat).SetInt(rfloor(rsub(radd(vpre, ratCent), eps)))
+			if tlo.Sign() < 0 {
+				tlo = new(big.Rat)
+			}
+			thi := new(big.Rat).SetInt(rfloor(radd(radd(vpost, ratCent), eps)))
+			if thi.Sign() <= 0 || thi.Cmp(tlo) <= 0 {
+				continue
+			}
+			revalBound = radd(revalBound, rmul(ratInt(amt), rsub(big.NewRat(1, 1), rquo(tlo, thi))))
+		}
+		// ... and the part that a settlement in this step explains: rewards are indexed per exact token of the
+		// validator but paid per floor(value + 0.01) tokens of the position, up to 0.01 token more than it holds
+		for _, pk := range post.DelOrder {
+			de := ent[pk].AmountOf(d).Sub(m.ent[pk].AmountOf(d))
+			if !de.IsPositive() {
+				continue
+			}
+			vpost := post.PosValue(pk)
+			thi := new(big.Rat).SetInt(rfloor(radd(vpost, big.NewRat(2, 100))))
+			if thi.Sign() <= 0 {
+				thi = big.NewRat(1, 1)
+			}
+			revalBound = radd(revalBound, radd(rmul(ratInt(de), rquo(big.NewRat(102, 10000), thi)), big.NewRat(1, 1)))
+		}
+		// ... and payouts made in this step right after a settlement (an implicit or explicit claim): same 0.01 token
+		for _, f := range flowsOf(st.Events) {
+			if f.Kind == "transfer" && f.From == r.W.RewardsAddr.String() {
+				if a := f.Coins.AmountOf(d); a.IsPositive() {
+					revalBound = radd(revalBound, radd(rmul(ratInt(a), big.NewRat(102, 10000)), big.NewRat(1, 1)))
+				}
+			}
+		}
+		// ... and at a slash: the hook claims for redelegation destinations after the bonded slash has already raised
+		// their value, so what it pays out is inflated by the same factor
+		if len(st.Slashes) > 0 {
+			gmax := big.NewRat(1, 1)
+			// the redistribution factor of each slash: the asset's staked total stays, so everything not on the slashed
+			// validator scales by T / (T - f x K)
+			for _, so := range st.Slashes {
+				for _, dn := range st.Pre.AssetOrder {
+					T := ratInt(st.Pre.Assets[dn].TotalTokens)
+					K := st.Pre.ValTokens(so.Val, dn)
+					den := rsub(T, rmul(ratDec(so.Fraction), K))
+					if T.Sign() <= 0 || K.Sign() <= 0 {
+						continue
+					}
+					g := new(big.Rat).SetInt(new(big.Int).Exp(big.NewInt(10), big.NewInt(40), nil))
+					if den.Sign() > 0 {
+						g = rquo(T, den)
+					}
+					if rmul(gmax, g).Cmp(gmax) > 0 {
+						gmax = rmul(gmax, g)
+					}
+				}
+			}
+			for _, pk := range post.DelOrder {
+				if pd, ok := st.Pre.Dels[pk]; ok && pd.Shares.Equal(post.Dels[pk].Shares) {
+					if vpre := st.Pre.PosValue(pk); vpre.Sign() > 0 {
+						if g := rquo(post.PosValue(pk), vpre); g.Cmp(gmax) > 0 {
+							gmax = g
+						}
+					}
+				}
+			}
+			for pk, e := range m.ent {
+				// claimed by the hook in this step: its entitlement is gone (or smaller) afterwards
+				if !ent[pk].AmountOf(d).LT(e.AmountOf(d)) {
+					continue
+				}
+				revalBound = radd(revalBound, radd(rmul(ratInt(e.AmountOf(d)), rsub(gmax, big.NewRat(1, 1))), big.NewRat(1, 1)))
+			}
+		}
+		revalBound = radd(revalBound, roundTol)
 		switch {
-		case len(st.Slashes) > 0:
+		case len(st.Slashes) > 0 && grow.Cmp(revalBound) <= 0:
 			cls = "entitlement-inflated-by-slash"
 		case fullySlashedAsset(st.Pre) || fullySlashedAsset(post):
 			// precondition of the open finding: an asset with a staked total but no validator shares at all
 			cls = "entitlement-inflated:fully-slashed-asset"
-		case grow.Cmp(radd(getR(rounder, d), roundTol)) <= 0:
+		case grow.Cmp(revalBound) <= 0:
 			cls = "entitlement-inflated:token-rounding"
-		case grow.Cmp(radd(radd(getR(rounder, d), roundTol), getR(fracBound, d))) <= 0 || m.precisionLoss:
+		case grow.Cmp(radd(revalBound, getR(fracBound, d))) <= 0:
 			cls = "entitlement-inflated:validator-fraction-precision-loss"
-		case m.inflatedBySlash && prev.Sign() > 0 && grow.Cmp(rmul(prev, big.NewRat(1, 10000))) <= 0:
-			// the run already carries a deficit from an inflation by slash (open finding): positions are then valued
-			// inconsistently with the indexes, and re-splitting pending rewards moves the aggregate by a small fraction of it
-			cls = "entitlement-inflated:drift-on-existing-deficit"
 		}
 		if len(st.Slashes) > 0 {
 			m.inflatedBySlash = true
@@ -353,7 +493,7 @@ func (m *monC12) OnStep(r *Runner, st *Step) {
 			// the pending rewards settled above are assigned through floor(value + 0.01) tokens: a position worth
 			// 68.997 is paid as 69 tokens of an index that was divided by 68.997
 			cls = "pool-shortfall:token-rounding"
-		case short.Cmp(radd(radd(radd(def, roundTol), getR(tokenBoundA, denom)), getR(fracBoundA, denom))) <= 0 || m.precisionLoss:
+		case short.Cmp(radd(radd(radd(def, roundTol), getR(tokenBoundA, denom)), getR(fracBoundA, denom))) <= 0:
 			cls = "pool-shortfall:validator-fraction-precision-loss"
 		}
 		r.Violate("C12.a", cls, fmt.Sprintf("claiming for all %d positions: %s fails: pool holds %s %s, claim needs %s (measured deficit %s, index-rounding tolerance %s)", n, pk, rstr(have), denom, rstr(need), rstr(def), rstr(roundTol)))
